@@ -300,7 +300,7 @@ def run(ctx):
                 "#samples, canonical tree)")
     ctx.assumptions = ["per-clone ccf optimality belongs to C10; here: per-clone constancy, range, prevalence identity"]
     shards = 16
-    tasks = [{"seed": ctx.seed, "shard": i, "count": 12 if quick else 160} for i in range(shards)]
+    tasks = [{"seed": ctx.seed, "shard": i, "count": 12 if quick else 600} for i in range(shards)]
     ctx.map("checks.c12", "table_task", tasks, timeout=3000)
     ctx.map("checks.c12", "real_task", [{"seed": ctx.seed, "shard": i} for i in range(8 if quick else 32)], timeout=3000)
     if ctx.counters.get("tables_checked", 0) < 200:
